@@ -26,10 +26,15 @@ func LoadBundle(dir string, id int64) (*corecrl.Bundle, error) {
 		return nil, err
 	}
 	out := &corecrl.Bundle{BaseCRL: rl}
-	if d, err := os.ReadFile(filepath.Join(dir, fmt.Sprintf("%d.delta.der", id))); err == nil {
+	d, err := os.ReadFile(filepath.Join(dir, fmt.Sprintf("%d.delta.der", id)))
+	switch {
+	case err == nil:
 		if out.DeltaCRL, err = x509.ParseRevocationList(d); err != nil {
 			return nil, err
 		}
+	case !errors.Is(err, os.ErrNotExist):
+		// (an injected fault that hits THIS read must not silently turn the bundle into one without delta)
+		return nil, err
 	}
 	return out, nil
 }
